@@ -104,18 +104,18 @@ func (r *Result) Disagree(stream string, input any, impl, model string) {
 }
 
 func (r *Result) Fail(sig map[string]any, what string, input any) {
-	// keep at most 3 per signature predicate
+	// keep at most 3 per distinct signature
 	n := 0
-	p := fmt.Sprint(sig["pred"])
+	key := JSONStr(sig)
 	for _, f := range r.Failures {
-		if fmt.Sprint(f.Sig["pred"]) == p {
+		if JSONStr(f.Sig) == key {
 			n++
 		}
 	}
 	if n < 3 {
 		r.Failures = append(r.Failures, Failure{sig, what, input})
 	}
-	r.Count("failure:" + p)
+	r.Count("failure:" + key)
 }
 
 // ---------------------------------------------------------------- PRNG (splitmix64)
